@@ -10,7 +10,8 @@
     and in scan order (decided by the exact-sequence comparison of
     implementation, model and occurrence scan on every generated case). *)
 From PM Require Import Model.Prelude Model.Domain Model.Constraint Model.Matchers
-  Model.DomString Model.DomMatrix Spec.Occ Proofs.SingleDomains Proofs.NaiveProofs Proofs.OccProofs Proofs.StringSingle Proofs.MatrixSingle.
+  Model.DomString Model.DomMatrix Spec.Occ Proofs.SingleDomains Proofs.NaiveProofs Proofs.OccProofs Proofs.StringSingle Proofs.MatrixSingle
+  Model.DomPGKeys Model.DomPG Model.DomPGPattern Proofs.PGEmbed.
 
 Theorem c05_string_single_sound_partial :
   forall p h fuel r, p <> [] ->
@@ -89,6 +90,20 @@ Theorem c05_matrix_naive_exact :
     ((exists a b, In (N.of_nat i, MBound s a b) ms) <-> occ_matrix p h s).
 Proof. exact m_naive_exact. Qed.
 
+(** port graphs (host and pattern side modelled): every binding reported by the
+    single-pattern matcher maps every link of the pattern to a link of the host
+    and distinct pattern nodes to distinct host nodes (soundness half; the
+    completeness half is false on the implementation: known classes) *)
+Theorem c05_portgraph_single_embeds :
+  forall (P : pghost) (root : N) cs nk h fuel r,
+    pg_cvec_full P root = Ok (cs, nk) -> lines_cover P root = true ->
+    single pg_dom fuel cs h = Ok r ->
+    forall m, In m r ->
+      (forall a oa b ib, In (a, oa, b, ib) (pg_links P) ->
+         exists va vb, image m nk a = Some va /\ image m nk b = Some vb /\ In (va, oa, vb, ib) (pg_links h))
+      /\ Dist m nk.
+Proof. exact pg_single_embeds. Qed.
+
 Example c05_example :
   single string_dom 100 (s_cvec [Lit 97; Var 1; Var 1]%N) [98; 97; 99; 99; 97; 98; 98]%N
   = Ok [SBound 1 3; SBound 4 3]%N
@@ -107,3 +122,4 @@ Print Assumptions c05_string_naive_exact.
 Print Assumptions c05_matrix_single_exact.
 Print Assumptions c05_matrix_match_exists_exact.
 Print Assumptions c05_matrix_naive_exact.
+Print Assumptions c05_portgraph_single_embeds.
